@@ -84,6 +84,9 @@ STEP = st.one_of(
     st.builds(lambda i, m: dict(op="nice", i=i, m=m), st.integers(0, 7), st.sampled_from([None, 10])),
     st.builds(lambda i: dict(op="copy", i=i), st.integers(0, 7)),
     st.builds(lambda i: dict(op="copy", i=i), st.integers(0, 7)),
+    # re-set the domain or the range to nearly (but not exactly) the values it has
+    st.builds(lambda i, w, e, k: dict(op="nudge", i=i, what=w, end=e, rel=k), st.integers(0, 7), st.sampled_from(["domain", "range"]), st.integers(0, 1),
+              st.sampled_from([1e-15, 1e-12, 1e-10, -1e-10, 1e-8, 1e-6])),
 )
 
 
@@ -185,6 +188,12 @@ def check_history(spec, ctx):
             if i in copied:
                 nontrivial = True
                 ctx.event("history:copy-then-nice")
+        elif op == "nudge":
+            cur = list(s.domain() if st_["what"] == "domain" else s.range())
+            v = cur[st_["end"]]
+            cur[st_["end"]] = v * (1 + st_["rel"]) if v else st_["rel"]
+            if cur[0] != cur[1]:
+                lib_call(s.domain if st_["what"] == "domain" else s.range, cur)
         elif op == "copy":
             pool.append(lib_call(s.copy))
             copied.add(i)
